@@ -210,22 +210,27 @@ func runRetry(in sx.Tree) sx.Tree {
 				ans.Res = append(ans.Res, kafka.TopicPartition{Topic: &topic, Partition: int32(e.At(0).Int()), Offset: kafka.Offset(e.At(1).Int())})
 			}
 			// the watermark answers this attempt will consume: up to and including its first error
+			failed := false
 			for i, w := range a.At(1).Kids {
 				if i >= len(parts) {
 					break
 				}
 				if w.Len() == 0 {
 					main.Watermarks = append(main.Watermarks, fake.Wm{Err: true})
+					failed = true
 					break
 				}
 				main.Watermarks = append(main.Watermarks, fake.Wm{Low: w.At(0).Int(), High: w.At(1).Int()})
+			}
+			if !failed && a.At(1).Len() < len(parts) {
+				main.Watermarks = append(main.Watermarks, fake.Wm{Err: true}) // a query beyond the script fails
 			}
 		}
 		main.CommittedScript = append(main.CommittedScript, ans)
 	}
 	// Assign is reached only by attempts whose queries all succeeded
 	for _, a := range in.At(3).Kids {
-		ok := a.At(0).Len() != 0
+		ok := a.At(0).Len() != 0 && a.At(1).Len() >= len(parts)
 		for i, w := range a.At(1).Kids {
 			if i < len(parts) && w.Len() == 0 {
 				ok = false
